@@ -249,5 +249,83 @@ pub open spec fn unix_path(url: &Url) -> &'static str { match url.host_of() { So
         (settings.std_stream matches Some(StdStream2::Unix(_))) ==> (r matches Ok(c) ==> (c.ct matches ConnType::Unix(st) && st.from_std)),
         (settings.std_stream matches Some(StdStream2::Tcp(_))) || (settings.std_stream matches Some(StdStream2::Invalid)) ==> r matches Err(LdapError2::MismatchedStreamType), //# C18.mismatched_pre_opened_stream_is_an_error
 //@end
+// ---- the synchronous constructors (src/sync.rs): LdapConn::new / with_settings / from_url / from_url_with_settings.
+// They build a current-thread runtime, run the asynchronous from_url_with_settings on it with the caller's settings and URL,
+// spawn the driver for the connection half and keep the handle half.  The asynchronous function is called through its
+// contract (`establish`, proved above on the real text); the runtime is a stub.  Rule R6 replaces `rt.block_on(async move
+// { E })` by `{ E }`: the `return Err(e)` inside the block then leaves the function instead of the block, which is the
+// same result because the block's value goes through `?` with the identical error type.
+pub struct IoError { pub g: u8 }
+impl vstd::std_specs::convert::FromSpecImpl<IoError> for LdapError { open spec fn obeys_from_spec() -> bool { false } open spec fn from_spec(e: IoError) -> LdapError { LdapError::Other(0) } }
+impl From<IoError> for LdapError { #[verifier::external_body] fn from(e: IoError) -> (r: LdapError) { unimplemented!() } }
+pub struct Runtime { pub g: u8 }
+pub mod runtime {
+    use super::*;
+    pub struct Builder { pub g: u8 }
+    impl Builder {
+        #[verifier::external_body] pub fn new_current_thread() -> (r: Builder) { unimplemented!() }
+        #[verifier::external_body] pub fn enable_all(self) -> (r: Builder) { unimplemented!() }
+        #[verifier::external_body] pub fn build(self) -> (r: core::result::Result<Runtime, IoError>) { unimplemented!() }
+    }
+}
+pub struct ConnHalf { pub of: Ghost<Pair> }
+pub struct Ldap { pub of: Ghost<Pair> }
+pub struct LdapConn { pub rt: Runtime, pub ldap: Ldap }
+// LdapConnAsync::from_url_with_settings seen from sync.rs: its contract (`establish`), with the pair split into its halves
+#[verifier::external_body]
+pub fn async_from_url_with_settings(settings: LdapConnSettings, url: &Url) -> (r: Result<(ConnHalf, Ldap)>)
+    ensures exists|ra: Result<Pair>| #[trigger] establish(settings, *url, ra) && (match ra {
+        Ok(p) => r matches Ok(t) && t.0.of@ == p && t.1.of@ == p,
+        Err(e) => r matches Err(e2) && e2 == e })
+{ unimplemented!() }
+// `super::drive!(conn)`: tokio::spawn of conn.drive(); returns (ghost) whose connection half was handed to the driver task
+#[verifier::external_body]
+pub fn verif_spawn_drive(conn: ConnHalf) -> (d: Ghost<Pair>) ensures d@ == conn.of@ { unimplemented!() }
+pub open spec fn sync_establish(settings: LdapConnSettings, url: Url, r: Result<LdapConn>) -> bool {
+    r is Ok ==> exists|ra: Result<Pair>| #[trigger] establish(settings, url, ra) && (ra is Ok) && r->Ok_0.ldap.of@ == ra->Ok_0
+}
+//@lift name=LdapConn::from_url_with_settings file=src/sync.rs impl="impl\s+LdapConn\s*\{" fn=from_url_with_settings
+//@ sub "fn from_url_with_settings(" => "fn sync_from_url_with_settings("
+//@ sub "Result<Self>" => "Result<LdapConn>"
+//@ sub "LdapConnAsync::from_url_with_settings(" => "async_from_url_with_settings("
+//@ sub "super::drive!(conn);" => "let driven = verif_spawn_drive(conn);"
+//@ sub "            Ok(ldap)\n" => "            Ok::<Ldap, LdapError>(ldap)\n"
+//@ insert after "let driven = verif_spawn_drive(conn);"
+            assert(driven@ == ldap.of@); //# C04+C14+C18.the_driver_is_spawned_for_the_connection_half_of_the_handle_that_is_kept
+//@ ret r
+//@ spec
+    ensures
+        sync_establish(settings, *url, r), //# C14+C17+C18.sync_constructor_establishes_with_the_callers_settings_and_url
+        (forall|ra: Result<Pair>| establish(settings, *url, ra) ==> ra is Err) ==> r is Err, //# C14+C17+C18.sync_constructor_fails_when_the_asynchronous_establishment_fails
+//@end
+//@lift name=LdapConn::with_settings file=src/sync.rs impl="impl\s+LdapConn\s*\{" fn=with_settings
+//@ sub "fn with_settings(" => "fn sync_with_settings("
+//@ sub "Result<Self>" => "Result<LdapConn>"
+//@ sub "Self::from_url_with_settings(" => "sync_from_url_with_settings("
+//@ ret r
+//@ spec
+    ensures
+        url_parse(url) is Err ==> r is Err, //# C14+C18.sync_with_settings_an_unparsable_url_is_an_error
+        url_parse(url) matches Ok(u) ==> sync_establish(settings, u, r), //# C14+C17+C18.sync_with_settings_passes_the_callers_settings_on_unchanged
+//@end
+//@lift name=LdapConn::new file=src/sync.rs impl="impl\s+LdapConn\s*\{" fn=new
+//@ sub "fn new(" => "fn sync_new("
+//@ sub "Result<Self>" => "Result<LdapConn>"
+//@ sub "Self::with_settings(" => "sync_with_settings("
+//@ ret r
+//@ spec
+    ensures
+        url_parse(url) is Err ==> r is Err,
+        url_parse(url) matches Ok(u) ==> exists|s: LdapConnSettings| default_settings(s) && #[trigger] sync_establish(s, u, r), //# C14+C17+C18.sync_new_uses_the_default_settings
+//@end
+//@lift name=LdapConn::from_url file=src/sync.rs impl="impl\s+LdapConn\s*\{" fn=from_url
+//@ sub "fn from_url(" => "fn sync_from_url("
+//@ sub "Result<Self>" => "Result<LdapConn>"
+//@ sub "Self::from_url_with_settings(" => "sync_from_url_with_settings("
+//@ ret r
+//@ spec
+    ensures exists|s: LdapConnSettings| default_settings(s) && #[trigger] sync_establish(s, *url, r), //# C14+C17+C18.sync_from_url_uses_the_default_settings
+//@end
+
 } // verus!
 fn main() {}
